@@ -33,6 +33,8 @@ def run_reads(content, sizes):
 
 
 def oracle(inp):
+    if not isinstance(inp, dict) or inp.get('kind') not in ('read','unblock_fn','inverse'):
+        return None          # unknown input kind (model of another property's unit)
     from cardutil.mciipm import unblock_1014, block_1014, MciIpmDataError
     kind = inp['kind']
     if kind == 'read':
